@@ -242,6 +242,12 @@ func checkC07(c *Ctx) {
 		if i%3 == 1 {
 			bad = 1 + r.Intn(nb*T_INDEX)
 		}
+		if i%5 == 2 {
+			// an early failure in a document that still needs far more buffers than
+			// the ring has slots: the failing stage must keep the other one moving
+			nb = 20 + r.Intn(60)
+			bad = 1 + r.Intn(3*T_INDEX)
+		}
 		doc := bigDoc(r, nb, bad)
 		mode := i % 4
 		procs := []int{1, 2, 4, 16}[(i/4)%4]
